@@ -20,7 +20,7 @@ func HashMapToJSONString(hm *value.HashMap) (*value.String, error) {
 
 func JSONStringToElement(jsonStr *value.String) (r.Element, error) {
 	decoder := json.NewDecoder(strings.NewReader(jsonStr.GetValue()))
-	elem, err := decodeElement(decoder)
+	elem, err := decodeElement(decoder, 0)
 	if err == nil {
 		// there should be ONE json value only
 		if _, errT := decoder.Token(); errT != io.EOF {
@@ -44,7 +44,15 @@ func JSONStringToElement(jsonStr *value.String) (r.Element, error) {
 // decodeElement - decode ONE json value from token stream.
 // Different from json.Unmarshal() into a plain map, the keys of an object keep their
 // order in the document
-func decodeElement(decoder *json.Decoder) (r.Element, error) {
+// maxJSONDepth - nesting levels accepted in a JSON document (the same bound encoding/json
+// applies itself when it decodes into Go values); a document of millions of opening brackets
+// would otherwise exhaust the Go stack through the recursion below
+const maxJSONDepth = 10000
+
+func decodeElement(decoder *json.Decoder, depth int) (r.Element, error) {
+	if depth > maxJSONDepth {
+		return nil, fmt.Errorf("exceeded max depth")
+	}
 	token, err := decoder.Token()
 	if err != nil {
 		return nil, err
@@ -67,7 +75,7 @@ func decodeElement(decoder *json.Decoder) (r.Element, error) {
 			if !ok {
 				return nil, fmt.Errorf("invalid object key")
 			}
-			item, err := decodeElement(decoder)
+			item, err := decodeElement(decoder, depth+1)
 			if err != nil {
 				return nil, err
 			}
@@ -81,7 +89,7 @@ func decodeElement(decoder *json.Decoder) (r.Element, error) {
 	case '[':
 		varr := value.NewEmptyArray()
 		for decoder.More() {
-			item, err := decodeElement(decoder)
+			item, err := decodeElement(decoder, depth+1)
 			if err != nil {
 				return nil, err
 			}
